@@ -370,6 +370,15 @@ class Body:
                     return ("overflowed", e)
                 if e[0] == "downcast" and e[2] in ("Some", "Ok") and i == 0:
                     return ("someof", e[1])
+                if e[0] == "someof" and e[1][0] == "call" and e[1][2] == "std::iter::Iterator::next" and e[1][3] and i in (0, 1):
+                    # `for (j, x) in xs.iter().enumerate()`: j ranges over 0..len(xs) and x is xs[j] - the same loop as
+                    # `for j in 0..xs.len() { let x = &xs[j]; .. }`, which is the shape the loop lemmas know
+                    it = e[1][3][0]
+                    if it[0] == "call" and it[2] == "std::iter::Iterator::enumerate" and len(it[3]) == 1:
+                        xs = it[3][0]
+                        j = ("someof", ("call", e[1][1], "std::iter::Iterator::next",
+                                        (("agg", "adt", "Range::Range", (("const", "usize", "0_usize", 0), ("call", it[1], "<[T]>::len", (xs,)))),)))
+                        return j if i == 0 else ("index", xs, j)
                 return ("field", e, i)
             if k == "d":
                 name = el[1] if el[1] else str(el[2])
@@ -950,6 +959,8 @@ def enumerate_paths(prog, body, variant=None, entry=0, max_visits=2, inline=1, l
                                 out.append(Path(ev2, sp.end, blocks))
                         return
                     events = events + [("eff", eff)]
+                if k == "call" and not t["dest"]["p"] and t["dest"]["l"] == 0 and body.kind != "coroutine":
+                    events = events + [("ret", prog.link(body.call_expr(t, (body.id, bid))))]
                 if k == "call" and not t["dest"]["p"] and len(body._defs.get(t["dest"]["l"], [])) > 1:
                     events = events + [("set", "%s|%d" % (body.id, t["dest"]["l"]), prog.link(body.call_expr(t, (body.id, bid))))]
                 if not t["succ"]:
@@ -1035,7 +1046,9 @@ def enumerate_paths(prog, body, variant=None, entry=0, max_visits=2, inline=1, l
                     if rc[0] == "unop" and rc[1] == "Not" and rc[2][0] == "const" and rc[2][3] is not None:
                         rc = ("const", "bool", None, 0 if rc[2][3] else 1)
                     if rc[0] == "const" and rc[3] is not None:
-                        cond = rc       # only used to prune: a non-constant guard keeps its phi form for the lemmas
+                        cond = rc
+                    elif os.environ.get("CB_RESOLVE_GUARDS", "1") == "1":
+                        cond = rc       # the guard as it reads on this path (the lemmas are per path)
                 if cond[0] == "const" and cond[3] is not None:
                     tgt = t["otherwise"]
                     for v, b in t["targets"]:
@@ -1055,10 +1068,20 @@ def enumerate_paths(prog, body, variant=None, entry=0, max_visits=2, inline=1, l
                         missing = [x for x in range(nvar) if x not in taken]
                         if len(missing) == 1:
                             alts = [(v, b) for v, b in t["targets"]] + [(missing[0], t["otherwise"])]
+                INT_TYS = ("usize", "u8", "u16", "u32", "u64", "u128", "isize", "i8", "i16", "i32", "i64", "i128")
+                int_switch = (pl is not None and not pl["p"] and body.locals[pl["l"]]["ty"] in INT_TYS and cond[0] not in ("discr", "const"))
                 for v, b in alts:
                     if body.blocks[b]["term"]["k"] == "unreachable" and not body.blocks[b]["stmts"]:
                         continue
                     excl = tuple(x for x, _ in t["targets"]) if v == "otherwise" else ()
+                    if int_switch:
+                        # `match n { 0 => .., _ => .. }` on an integer: the decision is an equality with the arm's constant
+                        # (for the catch-all arm: the inequality with the first listed constant)
+                        ty = body.locals[pl["l"]]["ty"]
+                        k0 = v if v != "otherwise" else t["targets"][0][0]
+                        c2 = ("binop", "Eq", cond, ("const", ty, str(k0), int(k0)))
+                        go(b, env, visits, events + [("br", c2, 1 if v != "otherwise" else 0, excl, (body.id, bid))], blocks, last_state)
+                        continue
                     go(b, env, visits, events + [("br", cond, v, excl, (body.id, bid))], blocks, last_state)
                 return
             raise AnalysisError("unhandled terminator %s in %s bb%d" % (k, body.id, bid))
